@@ -963,9 +963,11 @@ static uint64_t raw_atomic(AK k, uintptr_t a, int size, uint64_t v, uint64_t* ex
 
 static const char* ak_name[] = {"load", "store", "xchg", "add", "sub", "and", "or", "xor", "nand", "cas"};
 
+static __thread bool tl_weak_cas; // set by the compare_exchange_weak entry points for the duration of the call
 static uint64_t atomic_core(AK k, uintptr_t a, int size, uint64_t v, uint64_t* expected, int mo, int fmo, bool* ok, void* pc) {
   VThread* me = tl_self;
   if (!g.in_child || !me || g.failing) return raw_atomic(k, a, size, v, expected, ok);
+  const bool may_fail_spuriously = k == A_CAS && tl_weak_cas && g_cfg.spur > 0;
   if (g.unjoined_others == 0) {
     // the running thread is alone (every other thread is finished and joined): interleaving, views and
     // happens-before are irrelevant; later threads are hb-after everything and start from the memory value
@@ -978,6 +980,13 @@ static uint64_t atomic_core(AK k, uintptr_t a, int size, uint64_t v, uint64_t* e
       if (gr0 && gr0->has_loc) loc_reset_at(a);
     }
     uint64_t before = real_load(a, size);
+    if (may_fail_spuriously && before == trunc_to(*expected, size) && next_choice(K_SPUR, 2, CM_PREEMPT) == 1) {
+      *ok = false; // spurious failure: nothing is written, `expected` keeps its (equal) value
+      g.trace_hash = mix64(g.trace_hash, (a << 8) ^ 0x5b5b);
+      TRACE("  %6lu T%d cas%d   %p SPURIOUS FAILURE (solo)\n", (unsigned long)g.steps, me->id, size * 8, (void*)a);
+      me->nseen = 0;
+      return before;
+    }
     uint64_t r = raw_atomic(k, a, size, v, expected, ok);
     uint64_t after = real_load(a, size);
     g.trace_hash = mix64(g.trace_hash, (a << 8) ^ r ^ after);
@@ -1072,6 +1081,16 @@ static uint64_t atomic_core(AK k, uintptr_t a, int size, uint64_t v, uint64_t* e
       TRACE("  %6lu T%d cas%d   %p expected %#lx found %#lx FAIL mo=%d/%d\n", (unsigned long)g.steps, me->id, size * 8, (void*)a,
             (unsigned long)exp, (unsigned long)rd->val, mo, fmo);
       after_observation(me, pc, a, rd->val);
+      return rd->val;
+    }
+    if (may_fail_spuriously && next_choice(K_SPUR, 2, CM_PREEMPT) == 1) {
+      // compare_exchange_weak may fail although the comparison succeeds: a load with the failure order
+      *ok = false;
+      apply_acquire(me, rd, fmo);
+      floor_add(l, me->id, myclk, rd->ts);
+      g.trace_hash = mix64(g.trace_hash, (uint64_t(me->id) << 56) ^ (a << 8) ^ rd->val ^ 0x5b5b);
+      TRACE("  %6lu T%d cas%d   %p expected %#lx SPURIOUS FAILURE mo=%d/%d\n", (unsigned long)g.steps, me->id, size * 8, (void*)a, (unsigned long)exp, mo, fmo);
+      me->nseen = 0; // not an observation of an unchanged state: the retry will go through
       return rd->val;
     }
     *ok = true;
@@ -1293,7 +1312,9 @@ void __tsan_write_range_pc(void* a, unsigned long n, void*) { __tsan_write_range
   int __tsan_atomic##N##_compare_exchange_weak(volatile T* a, T* c, T v, int mo, int fmo) {                                      \
     bool ok = false;                                                                                                             \
     uint64_t e = (uint64_t)*c;                                                                                                   \
+    tl_weak_cas = true;                                                                                                          \
     atomic_core(A_CAS, (uintptr_t)a, SZ, (uint64_t)v, &e, mo, fmo, &ok, RA);                                                     \
+    tl_weak_cas = false;                                                                                                         \
     if (!ok) *c = (T)e;                                                                                                          \
     return ok;                                                                                                                   \
   }                                                                                                                              \
